@@ -88,6 +88,12 @@ pub struct Ctx {
 }
 
 static CTX: OnceLock<Ctx> = OnceLock::new();
+static HANG_IS_VIOLATION: AtomicBool = AtomicBool::new(false);
+
+/// Declare that, for this property, a CPU-bound hang of a case is a violation (see `Ctx::hang`).
+pub fn set_hang_is_violation(on: bool) {
+    HANG_IS_VIOLATION.store(on, Ordering::SeqCst);
+}
 
 pub fn ctx() -> &'static Ctx {
     CTX.get().expect("ctx not initialised")
@@ -213,6 +219,27 @@ impl Ctx {
         if i.inconclusive_samples.len() < 5 {
             i.inconclusive_samples.push(json!({"why": why, "detail": detail}));
         }
+    }
+    /// A case hit the wall-clock watchdog. Normally that is *inconclusive*. A monitor whose
+    /// property demands termination (C01) may declare `hang_is_violation`: then a case
+    /// whose worker thread demonstrably burnt >= SPIN_CPU_S CPU seconds on it (measured
+    /// from /proc, i.e. on work done - a loaded or suspended machine cannot fake that) is
+    /// reported as non-termination in bounded-progress form; the rewrite budget (hook H2)
+    /// cannot interrupt a loop that never applies a rule.
+    pub fn hang(&self, family: &str, index: u64, spun_cpu_s: Option<f64>) {
+        let spinning = spun_cpu_s.map_or(false, |s| s >= SPIN_CPU_S);
+        if spinning && HANG_IS_VIOLATION.load(Ordering::SeqCst) {
+            self.violation(
+                "case|no-termination|cpu-bound-for-the-whole-watchdog-period",
+                family,
+                index,
+                json!({"what": "the case was still computing when the watchdog fired", "watchdog_wall_s": WATCHDOG_S, "cpu_seconds_burnt_since_probe": spun_cpu_s,
+                       "note": "replay regenerates the case from (seed, family, index)"}),
+            );
+        } else {
+            self.inconclusive("watchdog", json!({"family": family, "index": index, "seconds": WATCHDOG_S, "cpu_seconds_burnt_since_probe": spun_cpu_s}));
+        }
+        println!("INCONCLUSIVE-OR-HANG property={} family={family} index={index} wall>{WATCHDOG_S}s cpu_since_probe={spun_cpu_s:?}", self.prop);
     }
     pub fn harness_error(&self, msg: &str) {
         self.lock().harness_errors.push(msg.to_string());
@@ -432,8 +459,36 @@ pub fn guarded<T>(f: impl FnOnce() -> T) -> Result<T, Caught> {
 // parallel case runner with watchdog
 // ------------------------------------------------------------------------------------
 
-/// Per-case wall-clock watchdog; firing is *inconclusive*, never a violation.
+/// Per-case wall-clock watchdog; firing is *inconclusive*, never a violation - with one
+/// exception that is decided on work done, not on wall-clock time: see `Ctx::hang`.
 pub const WATCHDOG_S: u64 = 120;
+/// when a case has been running this long the supervisor samples the worker's CPU time
+pub const PROBE_AFTER_S: u64 = 5;
+/// a case whose thread burnt at least this many CPU seconds between probe and watchdog was
+/// computing all along (not blocked, not descheduled, not suspended)
+pub const SPIN_CPU_S: f64 = 60.0;
+
+fn current_tid() -> usize {
+    std::fs::read_link("/proc/thread-self")
+        .ok()
+        .and_then(|p| p.file_name().map(|f| f.to_string_lossy().to_string()))
+        .and_then(|s| s.parse().ok())
+        .unwrap_or(0)
+}
+
+/// user+system CPU time of a thread of this process, from /proc/self/task/<tid>/stat
+fn thread_cpu_seconds(tid: usize) -> Option<f64> {
+    if tid == 0 {
+        return None;
+    }
+    let s = std::fs::read_to_string(format!("/proc/self/task/{tid}/stat")).ok()?;
+    // fields after the parenthesised command name; utime and stime are fields 14 and 15
+    let rest = &s[s.rfind(')')? + 2..];
+    let f: Vec<&str> = rest.split_whitespace().collect();
+    let ut: f64 = f.get(11)?.parse().ok()?;
+    let st: f64 = f.get(12)?.parse().ok()?;
+    Some((ut + st) / 100.0)
+}
 
 /// Run cases `0..n` of a family on the worker pool. Each case gets a PRNG that depends
 /// only on (seed, property, family, index). Panics escaping `f` are harness errors.
@@ -459,9 +514,14 @@ where
         cur: Mutex<Option<(u64, Instant)>>,
         done: AtomicBool,
         abandoned: AtomicBool,
+        /// kernel thread id of the worker (for reading its CPU time from /proc)
+        tid: AtomicUsize,
+        /// (case index, wall instant, thread CPU seconds) sampled by the supervisor once a
+        /// case has been running for a while
+        probe: Mutex<Option<(u64, Instant, f64)>>,
     }
     let ws: Vec<Arc<W>> = (0..nthreads)
-        .map(|_| Arc::new(W { cur: Mutex::new(None), done: AtomicBool::new(false), abandoned: AtomicBool::new(false) }))
+        .map(|_| Arc::new(W { cur: Mutex::new(None), done: AtomicBool::new(false), abandoned: AtomicBool::new(false), tid: AtomicUsize::new(0), probe: Mutex::new(None) }))
         .collect();
     for w in ws.iter() {
         let w = w.clone();
@@ -471,6 +531,7 @@ where
             .stack_size(64 << 20)
             .spawn(move || {
                 let c = ctx();
+                w.tid.store(current_tid(), Ordering::SeqCst);
                 loop {
                     if c.out_of_time() {
                         break;
@@ -507,9 +568,21 @@ where
             all = false;
             let cur = *w.cur.lock().unwrap();
             if let Some((i, t0)) = cur {
+                let tid = w.tid.load(Ordering::SeqCst);
+                if t0.elapsed() > Duration::from_secs(PROBE_AFTER_S) {
+                    let mut p = w.probe.lock().unwrap();
+                    if p.map_or(true, |(pi, _, _)| pi != i) {
+                        *p = thread_cpu_seconds(tid).map(|cpu| (i, Instant::now(), cpu));
+                    }
+                }
                 if t0.elapsed() > Duration::from_secs(WATCHDOG_S) {
                     w.abandoned.store(true, Ordering::SeqCst);
-                    c.inconclusive("watchdog", json!({"family": family, "index": i, "seconds": WATCHDOG_S}));
+                    // how much CPU did this thread burn on the case since the probe?
+                    let spun = match (*w.probe.lock().unwrap(), thread_cpu_seconds(tid)) {
+                        (Some((pi, _, cpu0)), Some(cpu1)) if pi == i => Some(cpu1 - cpu0),
+                        _ => None,
+                    };
+                    c.hang(family, i, spun);
                 }
             }
         }
